@@ -61,6 +61,15 @@ def shape_strata(module, factory, tier, *, extra=None, quick=None, thorough=None
     return jobs
 
 
+# thorough tier: (K_m, K_r) per kind of second description and number of atoms
+THOROUGH_LABELS = {
+    "atoms": {1: (1, 1), 2: (2, 2), 3: (3, 2), 4: (3, 2), 5: (2, 1)},
+    "bonds": {2: (2, 1), 3: (2, 1), 4: (2, 1), 5: (1, 0)},
+    "labels": {2: (2, 1), 3: (2, 1), 4: (2, 1), 5: (1, 1)},
+    "recanon": {2: (2, 1), 3: (2, 1), 4: (2, 1), 5: (1, 0)},
+}
+
+
 def pipeline_jobs(factory, tier, *, relists=("atoms", "bonds", "labels", "recanon", "recanon-scrambled", "keys"), elem=True, curated=True, extra=None,
                   module="harness.pipeline", scale=1.0, km_q=2, kr_q=1, km_t=3, kr_t=2, curated_relist="atoms",
                   n_max_q=4, n_max_t=5):
@@ -72,29 +81,32 @@ def pipeline_jobs(factory, tier, *, relists=("atoms", "bonds", "labels", "recano
     nmax = n_max_t if thorough else n_max_q
     pin_shape = {4: 4, 5: 8}
     for r in relists:
-        if r == "atoms" or r is None:
-            par = dict(K_m=km_t if thorough else km_q, K_r=kr_t if thorough else kr_q)
-            ns = list(range(1, nmax + 1))
-        elif r in ("labels", "recanon", "recanon-scrambled", "keys"):
-            par = dict(K_m=2 if thorough else 1, K_r=1)
-            ns = list(range(2, nmax + 1))
-        else:
-            par = dict(K_m=2 if thorough else 1, K_r=1 if thorough else 0)
-            ns = list(range(2, nmax + 1))
-        if r is not None:
-            par["relist"] = r
-        strata.append(dict(name=f"S-shape/{r or 'single'}", ns=ns, pin=pin_shape, params=par))
+        kind = "atoms" if r in ("atoms", None) else ("bonds" if r == "bonds" else ("recanon" if r.startswith("recanon") else "labels"))
+        for n in range(1 if kind == "atoms" else 2, nmax + 1):
+            if thorough:
+                km, kr = THOROUGH_LABELS[kind][n]
+                if kind == "atoms":
+                    km, kr = min(km, km_t), min(kr, kr_t)
+            elif kind == "atoms":
+                km, kr = km_q, kr_q
+            elif kind == "bonds":
+                km, kr = 1, 0
+            else:
+                km, kr = 1, 1
+            par = dict(K_m=km, K_r=kr)
+            if r is not None:
+                par["relist"] = r
+            strata.append(dict(name=f"S-shape/{r or 'single'}", ns=[n], pin=pin_shape, params=par))
     if elem:
         r = relists[0]
-        par = dict(K_m=2 if thorough else 1, K_r=1)
-        if r is not None:
-            par["relist"] = r
+        par = {} if r is None else {"relist": r}
         if thorough:
-            strata.append(dict(name="S-elem4", ns=[2, 3, 4], pin={3: 3, 4: 6}, params=dict(par, alphabet=SIGMA_T4)))
-            strata.append(dict(name="S-elem6", ns=[2, 3], pin={3: 3}, params=dict(par, alphabet=SIGMA_Q)))
+            strata.append(dict(name="S-elem4", ns=[2, 3], pin={3: 3}, params=dict(par, K_m=2, K_r=1, alphabet=SIGMA_T4)))
+            strata.append(dict(name="S-elem4", ns=[4], pin={4: 6}, params=dict(par, K_m=1, K_r=0, alphabet=SIGMA_T4)))
+            strata.append(dict(name="S-elem6", ns=[2, 3], pin={3: 3}, params=dict(par, K_m=1, K_r=1, alphabet=SIGMA_Q)))
         else:
-            strata.append(dict(name="S-elem6", ns=[2], pin={}, params=dict(par, alphabet=SIGMA_Q)))
-            strata.append(dict(name="S-elem4", ns=[3], pin={3: 3}, params=dict(par, alphabet=SIGMA_T4)))
+            strata.append(dict(name="S-elem6", ns=[2], pin={}, params=dict(par, K_m=1, K_r=1, alphabet=SIGMA_Q)))
+            strata.append(dict(name="S-elem4", ns=[3], pin={3: 3}, params=dict(par, K_m=1, K_r=1, alphabet=SIGMA_T4)))
     js = shape_strata(module, factory, tier, extra=extra, quick=strata, thorough=strata, max_seconds=ms)
     if curated:
         for name, (n, bonds) in CURATED.items():
@@ -124,7 +136,7 @@ def pipeline_jobs(factory, tier, *, relists=("atoms", "bonds", "labels", "recano
 def std_bounds(tier, relist=True):
     t = tier == "thorough"
     b = {"atoms": "all labelled simple graphs on n <= %d atoms; curated skeletons (C6 ring, prism, K3,3, 2xC3, star K1,5, P8, cubane, C4+C4, C8 ring%s); curated molecules with hydrogens (ethanol, acetonitrile; thorough: 2-chloroethanol) with one label at a solver-chosen atom" % (5 if t else 4, ", Petersen" if t else ""),
-         "labels": "at most K_m mass and K_r radical labels at solver-chosen atoms (K_m<=%d, K_r<=%d on S-shape; fewer on the larger strata, see strata), values symbolic integers >= 1, unbounded above" % ((3, 2) if t else (2, 1)),
+         "labels": "at most K_m mass and K_r radical labels at solver-chosen atoms (%s; per-stratum values in `strata`), values symbolic integers >= 1, unbounded above" % ("thorough: K_m<=3, K_r<=2 up to 4 atoms, K_m<=2, K_r<=1 at 5 atoms for listing transpositions; fewer for the other description kinds: " + str(THOROUGH_LABELS) if t else "quick: K_m<=2, K_r<=1 for listing transpositions, K_m<=1, K_r<=1 otherwise"),
          "alphabets": {"S-shape": ["C"], "S-elem6 (n<=%d)" % (3 if t else 2): SIGMA_Q, "S-elem4 (n<=%d)" % (4 if t else 3): SIGMA_T4}}
     if relist:
         b["relistings_of_graph_objects"] = "keys: the declared indices (dict keys handed to graph_from_molecule) of two adjacent listing positions exchanged, so that indices do not ascend in listing order; labels: two solver-chosen adjacent labels exchanged without changing the node iteration order (nx.relabel_nodes); recanon: the canonical graph itself fed back in (its listing order differs from its numbering); recanon-scrambled: the canonical graph renumbered with nx.relabel_nodes and fed back in"
